@@ -1,5 +1,250 @@
-import RSVerif.Basic
-/- C12: line-protocol driver (stub) -/
+import RSVerif.Model.RdbDecode
+import RSVerif.Model.RdbEncode
+import RSVerif.Model.FloatText
+import RSVerif.Spec.Compact
+/-
+Line protocol for C12 (go/harness/c12.go). The line printed is what the PROPERTY predicts:
+  enc  <value>                 bytes of the model encoder (both real encoders must produce them) and the value the
+                               round trip must return (= the input with NaN scores canonicalised)
+  cmp  <type> <wrap> <tree>    payload digest of the SPEC serializer (cross-checks the harness' own serializer) and
+                               `logicalOf tree`, the value Redis would materialise
+  ql   <lenform> <nodes>       the same for quicklists
+  dec  <payload hex>           the decode MODEL on arbitrary bytes (ties the model to the code off the spec's image)
+  file <objs>                  model file bytes, the objects that must come back, footer ok
+  ff <bits> / pf <text hex>    the float-text stand-in against strconv
+Whenever the executable model disagrees with the spec-level prediction the line gets a ` MODEL=…` suffix, which then
+differs from the implementation's line: a theorem of Properties/C12 would be contradicted by a concrete input.
+-/
 namespace RSVerif.Drive.C12
-def handle (_line : String) : String := "unimplemented"
+open RSVerif RSVerif.Rdb RSVerif.RdbDecode RSVerif.RdbEncode RSVerif.Spec.Compact
+
+def pf := FloatText.parseFloat
+def fmtF := FloatText.fmtG17
+
+def hex16 (x : UInt64) : String := toHex (le64 x).reverse
+
+/-- FNV-1a (a CRC would be 0 on every payload that carries its own CRC trailer) -/
+def fnv (v : Bytes) : UInt64 := v.foldl (fun h b => (h ^^^ b.toUInt64) * 0x100000001b3) 0xcbf29ce484222325
+
+def digest (v : Bytes) : String :=
+  if v.length ≤ 48 then hexOrDash v else s!"{v.length}:{hex16 (fnv v)}"
+
+/-- shorten long renderings the same way on both sides -/
+def clip (s : String) : String :=
+  if s.length ≤ 400 then s else s!"#{s.length}:{hex16 (fnv s.toUTF8.toList)}"
+
+def joinC (xs : List String) : String := ",".intercalate xs
+
+def renderV : LValue → String
+  | .str s => "S:" ++ hexOrDash s
+  | .list xs => "L:" ++ joinC (xs.map hexOrDash)
+  | .set xs => "T:" ++ joinC (xs.map hexOrDash)
+  | .hash fvs => "H:" ++ joinC (fvs.map fun (f, v) => hexOrDash f ++ "=" ++ hexOrDash v)
+  | .zset ms => "Z:" ++ joinC (ms.map fun (m, s) => hexOrDash m ++ "=" ++ hex16 s)
+
+def errName : DErr → String
+  | .dumpLength | .dumpVersion | .dumpCrc => "dump"
+  | .eof => "eof"
+  | .float => "float"
+  | .zipmapLen | .zlHeader | .intsetEnc | .module | .unknownType => "format"
+  | .seek => "seek"
+  | .panic => "panic"
+  | .adaptor => "adaptor"
+
+def renderR : Except DErr LValue → String
+  | .ok v => renderV v
+  | .error .panic => "panic"
+  | .error e => "err:" ++ errName e
+
+/-! ### parsing -/
+
+def splitNE (s : String) (sep : String) : List String :=
+  if s == "" || s == "_" then [] else s.splitOn sep
+
+def parseHexList (s : String) : Option (List Bytes) := (splitNE s ",").mapM ofHex
+
+def parseU64 (s : String) : Option UInt64 :=
+  match ofHex s with
+  | some bs => if bs.length = 8 then some (ofLe64 bs.reverse) else none
+  | none => none
+
+def parsePair (s : String) : Option (Bytes × Bytes) :=
+  match s.splitOn "=" with
+  | [a, b] => do pure ((← ofHex a), (← ofHex b))
+  | _ => none
+
+def parseValue (s : String) : Option LValue :=
+  if s.length < 2 then none else
+  let body := (s.drop 2).toString
+  match (s.take 2).toString with
+  | "S:" => (ofHex body).map .str
+  | "L:" => (parseHexList body).map .list
+  | "T:" => (parseHexList body).map .set
+  | "H:" => ((splitNE body ",").mapM parsePair).map .hash
+  | "Z:" => ((splitNE body ",").mapM fun (p : String) => match p.splitOn "=" with
+      | [a, b] => do pure ((← ofHex a), (← parseU64 b))
+      | _ => none).map .zset
+  | _ => none
+
+def parseLenForm : String → Option LenForm
+  | "6" => some .b6 | "14" => some .b14 | "32" => some .b32 | "64" => some .b64 | _ => none
+
+def parseTok (s : String) : Option Spec.Rdb.LzfTok :=
+  if s.startsWith "l" then (ofHex (s.drop 1).toString).map .lit
+  else if s.startsWith "r" then
+    match ((s.drop 1).toString).splitOn "." with
+    | [a, b] => do pure (.ref (← a.toNat?) (← b.toNat?))
+    | _ => none
+  else none
+
+/-- `r6|r14|r32|r64` or `z<cf>-<uf>:<tok>+<tok>…`: the string object that stores `blob` -/
+def parseWrap (s : String) (blob : Bytes) : Option RStr :=
+  if s.startsWith "r" then (parseLenForm (s.drop 1).toString).map fun f => .raw f blob
+  else if s.startsWith "z" then
+    match ((s.drop 1).toString).splitOn ":" with
+    | [forms, toks] =>
+      match forms.splitOn "-" with
+      | [a, b] => do
+        let ts ← (splitNE toks "+").mapM parseTok
+        if Spec.Rdb.expand ts = blob then pure (.lzf (← parseLenForm a) (← parseLenForm b) ts) else none
+      | _ => none
+    | _ => none
+  else none
+
+def parseInt (s : String) : Option Int :=
+  if s.startsWith "-" then ((s.drop 1).toString.toNat?).map fun n => - (n : Int) else (s.toNat?).map fun n => (n : Int)
+
+/-- `s6:hex` `s14b:hex` `i16:-5` `i4b:3` -/
+def parseEntry (s : String) : Option ZlEntry :=
+  match s.splitOn ":" with
+  | [h, v] =>
+    let big := h.endsWith "b"
+    let h := if big then (h.dropEnd 1).toString else h
+    match h with
+    | "s6" => (ofHex v).map (.str big .s6)
+    | "s14" => (ofHex v).map (.str big .s14)
+    | "s32" => (ofHex v).map (.str big .s32)
+    | "i4" => (parseInt v).map (.int big .i4)
+    | "i8" => (parseInt v).map (.int big .i8)
+    | "i16" => (parseInt v).map (.int big .i16)
+    | "i24" => (parseInt v).map (.int big .i24)
+    | "i32" => (parseInt v).map (.int big .i32)
+    | "i64" => (parseInt v).map (.int big .i64)
+    | _ => none
+  | _ => none
+
+def parseEntries (s : String) : Option (List ZlEntry) := (splitNE s ",").mapM parseEntry
+
+def pairUp : List ZlEntry → Option (List (ZlEntry × ZlEntry))
+  | [] => some []
+  | a :: b :: r => (pairUp r).map ((a, b) :: ·)
+  | _ => none
+
+/-- `khex=vhex/freehex` -/
+def parseZmPair (s : String) : Option ZmPair :=
+  match s.splitOn "=" with
+  | [k, r] =>
+    match r.splitOn "/" with
+    | [v, f] => do pure { k := (← ofHex k), v := (← ofHex v), free := (← ofHex f) }
+    | _ => none
+  | _ => none
+
+def parseCompact (t : String) (tree : String) : Option Compact :=
+  match t with
+  | "9" => ((splitNE tree ",").mapM parseZmPair).map .zipmap
+  | "10" => (parseEntries tree).map .listZl
+  | "11" =>
+    match tree.splitOn ":" with
+    | [w, xs] => do pure (.intset (← w.toNat?) (← (splitNE xs ",").mapM parseInt))
+    | _ => none
+  | "12" => (parseEntries tree).bind pairUp |>.map .zsetZl
+  | "13" => (parseEntries tree).bind pairUp |>.map .hashZl
+  | _ => none
+
+/-- quicklist nodes: `wrap|entries;wrap|entries` -/
+def parseNodes (s : String) : Option (List QNode) :=
+  (splitNE s ";").mapM fun (n : String) => match n.splitOn "|" with
+    | [w, es] => do
+      let es ← parseEntries es
+      pure { w := (← parseWrap w (serZiplist es)), es := es }
+    | _ => none
+
+/-- `db/keyhex/expire/value` -/
+def parseObj (s : String) : Option Obj :=
+  match s.splitOn "/" with
+  | [db, k, ex, v] => do pure { db := (← db.toNat?), key := (← ofHex k), expireAt := (← ex.toNat?), val := (← parseValue v) }
+  | _ => none
+
+/-! ### predictions -/
+
+def renderObj (o : Obj) : String := s!"{o.db}/{hexOrDash o.key}/{o.expireAt}/{clip (renderV o.val)}"
+
+def withModel (expected : String) (model : String) : String :=
+  if expected == model then expected else expected ++ " MODEL=" ++ model
+
+def handle (line : String) : String :=
+  match line.splitOn " " with
+  | ["enc", v] =>
+    match parseValue v with
+    | none => "badcase"
+    | some v =>
+      let p := encodeDump fmtF v
+      let d := digest p
+      let exp := clip (renderV (normValue v))
+      let mdl := clip (renderR (decodeDump pf p))
+      withModel s!"ext={d} inrepo={d} v={exp} v2={exp}" s!"ext={d} inrepo={d} v={mdl} v2={mdl}"
+  | ["cmp", t, w, tree] =>
+    match (parseCompact t tree).bind fun c => (parseWrap w (serCompact c)).map fun w => (c, w) with
+    | some (c, w) =>
+      let p := wrapDump w c.type
+      let exp := match logicalOf pf c with
+        | some v => clip (renderV v)
+        | none => "err:float"
+      let mdl := clip (renderR (decodeDump pf p))
+      withModel s!"p={digest p} v={exp}" s!"p={digest p} v={mdl}"
+    | none => "badcase"
+  | ["ql", cf, nodes] =>
+    match parseLenForm cf, parseNodes nodes with
+    | some cf, some ns =>
+      let p := quicklistDump cf ns
+      let exp := clip (renderV (qlLogical ns))
+      let mdl := clip (renderR (decodeDump pf p))
+      withModel s!"p={digest p} v={exp}" s!"p={digest p} v={mdl}"
+    | _, _ => "badcase"
+  | ["dec", h] =>
+    match ofHex h with
+    | some d =>
+      match decodeDump pf d with
+      | .error .panic => "panic"          -- nothing recovers a run-time panic inside rdb.DecodeDump
+      | r => "v=" ++ clip (renderR r)
+    | none => "badcase"
+  | ["file", objs] =>
+    match (splitNE objs ";").mapM parseObj with
+    | none => "badcase"
+    | some os =>
+      let f := encodeFile fmtF os
+      let d := digest f
+      let exp := ";".intercalate (os.map fun o => renderObj { o with val := normValue o.val })
+      -- the model of the loader + decoder on the model's file
+      let (es, fin) := Rdb.run (fun t => (pf t).isSome) true 16777216 Generated.rdbFromVersion f
+      let mdlObjs := ";".intercalate (es.map fun e =>
+        let v := match decodeDump pf e.value with
+          | .ok v => clip (renderV v)
+          | .error er => "err:" ++ errName er
+        s!"{e.db}/{hexOrDash e.key}/{e.expireAt}/{v}")
+      let mdlEnd := match fin with | .ok [] => "ok" | .ok _ => "unread" | .error _ => "err"
+      withModel s!"f={d} f2={d} end=ok objs={exp} rebin=same" s!"f={d} f2={d} end={mdlEnd} objs={mdlObjs} rebin=same"
+  | ["ff", b] =>
+    match parseU64 b with
+    | some bits =>
+      let t := fmtF bits
+      let back := match pf t with | some x => hex16 x | none => "err"
+      s!"t={hexOrDash t} back={back}"
+    | none => "badcase"
+  | ["pf", h] =>
+    match ofHex h with
+    | some t => match pf t with | some x => "b=" ++ hex16 x | none => "b=err"
+    | none => "badcase"
+  | _ => "badcase"
+
 end RSVerif.Drive.C12
